@@ -95,6 +95,13 @@ CTRL_ACTIONS = ("scenario", "emptyrv", "stalelist", "overflow", "srv", "cstart",
                 "settle", "closeroot", "cancel", "end")
 
 
+def cache_older_cls(inp, ans):
+    m = re.search(r"reject content: \w+: key \S+ holds \S+@(-?\d+), reference \S+@(-?\d+)", ans)
+    if m and int(m.group(1)) < int(m.group(2)):
+        return "reject"
+    return "ignore"
+
+
 def ctrl_cls(tags):
     def cls(inp, ans):
         m = re.match(r"(reject|diff) (\S+)", ans)
@@ -190,7 +197,7 @@ PROPS = {
     "C06": {
         "engines": [tree_engine("step,burst,burst", ("C06", "C02"), FSUB_KINDS, 1200, 20000)],
         "rule": "tree engine, modes step+burst: random trees (<= 9 nodes, depth <= 4) of all six constructors + monitors under a real "
-                "controller; server creates/updates/deletes moving objects in and out of a 9-filter family, relists, Refilter sequences "
+                "controller; server creates/updates/deletes moving objects in and out of a 11-filter family, relists, Refilter sequences "
                 "(back to earlier, equal-by-construction, FN) also inside bursts with events in flight, Close. At every quiescent point "
                 "each ready filtered node's cache must equal its current filter applied to its parent's observed cache, and its drained "
                 "events must replay from its previous content to its current one. Non-trivial: an observation that carried events.",
@@ -198,9 +205,9 @@ PROPS = {
         "assumptions": ["no event buffer overflows (<= EventBufsiz/4 events in flight)", "filters are pure"],
     },
     "C07": {
-        "engines": [tree_engine("c07", ("C07",), FSUB_KINDS, 1296, 12000), tree_engine("step", ("C07",), FSUB_KINDS, 300, 6000),
+        "engines": [tree_engine("c07", ("C07",), FSUB_KINDS, 1936, 16000), tree_engine("step", ("C07",), FSUB_KINDS, 300, 6000),
                     tree_engine("burst", ("C07",), FSUB_KINDS, 500, 8000)],
-        "rule": "tree engine mode c07: EXHAUSTIVE over 16 parent contents (subsets of 4 objects) x ordered pairs of the 9-filter family "
+        "rule": "tree engine mode c07: EXHAUSTIVE over 16 parent contents (subsets of 4 objects) x ordered pairs of the 11-filter family "
                 "(equal by construction, overlapping, disjoint, Null, All, FN) (thorough: plus triples), for SubscribeWithFilter, "
                 "CloneWithFilter(+subscriber) and SubscribeForFilter; each Refilter at quiescence; the drained events must be exactly one "
                 "Delete per cached object the new filter rejects and one Create per parent object newly accepted. Plus random stepwise trees, "
@@ -222,7 +229,10 @@ PROPS = {
     "C05": {
         "engines": [tree_engine("step,burst,burst", ("C05",), ("sub", "clone", "root", "mon"), 1500, 25000),
                     tree_engine("overflow,stall", ("C05",), ("sub", "clone", "root", "mon"), 300, 5000),
-                    ctrl_engine("", ("C05",), 300, 5000)],
+                    ctrl_engine("", ("C05",), 300, 5000),
+                    # "reading the cache never returns an older version": the cache engine's content oracle, restricted to
+                    # the cases in which the cache holds an OLDER version than the reference
+                    {"go": "cachediff", "driver": "cache", "classify": cache_older_cls, "nontrivial": has_events, "resets": ["new"], "ignore_known": True}],
         "rule": "tree engine, modes step+burst: random trees of Subscribe/Clone (and the filtered constructors and monitors) up to depth 4, "
                 "server event streams with at most EventBufsiz/4 events in flight, subscriptions attached at arbitrary moments (also inside "
                 "bursts), schedule perturbation by virtual-time sleeps at the library's log calls. Every plain subscriber's drained sequence "
@@ -253,6 +263,9 @@ PROPS = {
     },
     "C16": {
         "engines": [tree_engine("step,burst,stall", ("C16",), ("mon",), 1500, 25000),
+                    # shutdown at every point of a workload, also at the instant of readiness: no callback after Done, none if
+                    # the publisher never became ready, OnInitialize never with the result of a failed List
+                    tree_engine("c12", ("C16",), ("mon",), 1400, 14000),
                     {"go": "typed", "bin": "kconc", "driver": "typed", "actions": ("scenario", "tstart", "tsrv", "end"),
                      "args_quick": ["-n", "96"], "args_thorough": ["-n", "2400"], "classify": ctrl_cls(("C16",)), "resets": ["scenario"],
                      "nontrivial": lambda l: l.startswith("(tobs") and ("(create (obj" in l or "(update (obj" in l or "(delete (obj" in l)}],
@@ -266,7 +279,7 @@ PROPS = {
     },
     "C03": {
         "engines": [ctrl_engine("", ("C03", "C02"), 600, 30000)],
-        "rule": "ctrl engine: random server histories over 4 objects x 4 label sets, controller-level filters from the 9-filter family, "
+        "rule": "ctrl engine: random server histories over 4 objects x 4 label sets, controller-level filters from the 11-filter family, "
                 "refresh periods {10s, 1m, 1h, 10000h}, list latencies {0, 100ms, period/4}, resource-version steps 1-3, and fault sequences "
                 "{stream closed, close right after a burst, Watch() errors k times, Watch() blocks until cancelled, status / bookmark / "
                 "non-object frames}; time advanced past the retry delay / the refresh period; final settle + one further relist. "
